@@ -212,7 +212,8 @@ fn check_tape(tape: &[u8], gates: &Gates, stats: &mut Stats, counting: bool, cli
             }
         }
         _ => {
-            let kinds: Vec<FaultKind> = ALL_FAULTS.iter().copied().filter(|k| k.self_contained() && base.sites[k.index()] > 0).collect();
+            // self-contained kinds, plus the invocation of a name that exists nowhere (checked below)
+            let kinds: Vec<FaultKind> = ALL_FAULTS.iter().copied().filter(|k| (k.self_contained() || *k == FaultKind::CallNotInstance) && base.sites[k.index()] > 0).collect();
             if kinds.is_empty() {
                 FaultyFile::Lexical("?\n".into())
             } else {
@@ -223,6 +224,14 @@ fn check_tape(tape: &[u8], gates: &Gates, stats: &mut Stats, counting: bool, cli
                 let mut ft2 = Tape::new(&ftape);
                 let fu = gen_unit_with(&mut ft2, gates, &fp, Some((k, s)));
                 let pl = fu.planted.clone().unwrap();
+                if k == FaultKind::CallNotInstance && !pl.site_class.ends_with(".inserted-call") {
+                    // the instance name may be declared by a companion: not self-contained
+                    if counting {
+                        stats.class("faulty-file-not-self-contained(skipped)");
+                    }
+                    gates.take_wanted();
+                    return Ok(());
+                }
                 let elem = fu.lib.elements[pl.decl_index].clone();
                 FaultyFile::Semantic(chunks_of(&fu.lib, gates), pl.decl_index, k, decl_name(&elem), elem, pl.marker.clone(), pl.site_class.clone())
             }
@@ -269,12 +278,10 @@ fn check_tape(tape: &[u8], gates: &Gates, stats: &mut Stats, counting: bool, cli
     // F alone must fail (otherwise the case is not a C03 case)
     let alone = project_verdict(&[ftext.clone()]).map_err(|(k, d)| Failure::new("alone", &k, d, json!({"files": [ftext]})))?;
     if alone.0 {
-        if counting {
-            stats.case(false, hash_str(&ftext));
-            stats.class("faulty-file-alone-ok(skipped)");
-        }
+        // the set that consists of the faulty file only is a set too ("whatever other files
+        // accompany it" includes none); the planted shapes are the ones C02 verifies one by one
         gates.take_wanted();
-        return Ok(());
+        return Err(Failure::new("set", "error-masked", format!("the faulty file ({}) alone checks OK", fclass), json!({"files": [ftext], "kind": fclass})));
     }
     if let Some(c) = code {
         if !alone.1.iter().any(|x| x == c) {
